@@ -48,6 +48,27 @@ def tup(x):
     return x
 
 
+def expected_diag(st):
+    """the diagnostic text of xcmp.hpp's exception for a model error outcome 'err <Kind> <arg>'"""
+    w = st.split(' ', 2)
+    kind, arg = (w[1], w[2] if len(w) > 2 else '') if len(w) > 1 else ('', '')
+    return {'UnknownSymbol': 'could not find symbol %s' % arg, 'InvalidSyscall': 'invalid syscall: %s' % arg,
+            'NonConstVal': 'val %s is not constant' % arg, 'RedefinedProc': 'procedure %s is defined more than once' % arg}.get(kind)
+
+
+def diag_mismatch(st, rc, err, flag):
+    """model says an error: the real xcmp must fail with exactly that diagnostic"""
+    text = err.decode('latin-1')
+    exp = expected_diag(st)
+    if rc == 0:
+        return 'xcmp %s succeeds where the model says %s' % (flag, st)
+    if rc < 0 or rc == 124:
+        return 'xcmp %s dies (rc=%d) where the model says %s' % (flag, rc, st)
+    if exp is None or exp not in text:
+        return 'xcmp %s reports %r where the model says %s (expected %r)' % (flag, text.strip()[-160:], st, exp)
+    return None
+
+
 def strip_loc(text):
     return '\n'.join(re.sub(r' \[loc=[^\]]*\]', '', l).rstrip() for l in text.split('\n')).strip('\n')
 
@@ -152,8 +173,8 @@ def eval_programs(progs, want_tie=True, want_xsem=True, want_ubsan=True):
                             r['tie'] = 'xcmp %s differs from the model at line %d: real %r model %r' % (
                                 flag, k + 1, a[k] if k < len(a) else '<end>', b[k] if k < len(b) else '<end>')
                     elif st.startswith('err'):
-                        if real_ok:
-                            r['tie'] = 'xcmp %s succeeds where the model says %s' % (flag, st)
+                        r['tie'] = diag_mismatch(st, rc, err, flag)
+                        r['diag'] = st.split(' ')[1]
                     # st ub: the real run is not judged here (tie a3 looks at it with the sanitizer)
                     if r['tie']:
                         break
@@ -276,8 +297,10 @@ def prog_tie_job(items):
                         k = next((j for j in range(min(len(a), len(b))) if a[j] != b[j]), min(len(a), len(b)))
                         r['tie'] = 'xcmp %s differs from the model at line %d: real %r model %r' % (
                             flag, k + 1, a[k] if k < len(a) else '<end>', b[k] if k < len(b) else '<end>')
-                elif st.startswith('err') and rc == 0:
-                    r['tie'] = 'xcmp %s succeeds where the model says %s' % (flag, st)
+                elif st.startswith('err'):
+                    r['judged'] = True
+                    r['diag'] = st.split(' ')[1]
+                    r['tie'] = diag_mismatch(st, rc, e, flag)
                 if r['tie']:
                     break
             # model-level: XSem of the front-end's output against XSem of the source
@@ -318,6 +341,9 @@ def whole_program_tie(ck, pool, n):
             'val put = 1;\nval exit = 0;\nproc main() is { put(65 + (1 + 1), 0); exit(put + exit) }\n',
             'val a = 3;\nproc f(val a) is 0(a + 1)\nproc main() is f(a + 1)\n', 'val a = 3;\nproc main() is var a; { a := 1; 0(a + 1) }\n',
             'val n = 2 + 3;\narray t[n + n];\nproc main() is { t[n - 1] := n; 0(t[(n - 3) + 2] + (n <= 5)) }\n',
+            'proc f() is skip\nproc f() is stop\nproc main() is f()\n', 'var f;\nproc f() is skip\nproc main() is f()\n',
+            'func g(val a) is return a\nproc g() is skip\nproc main() is skip\n', 'proc main() is skip\nproc main() is skip\n',
+            'proc p(val p) is 0(p)\nproc main() is p(1)\n',
             'val a = 1;\nproc main() is a := 2\n', 'val a = b;\nval b = 1;\nproc main() is 0(a)\n', 'array t[b];\nval b = 3;\nproc main() is 0(0)\n',
             'var g;\nval v = g;\nproc main() is 0(0)\n', 'proc main() is val a = e; val e = 0; e(1)\n', 'val b = ~true;\nval c = -(b);\nval d = (c = b) and (c >= b) or (c > 1);\nproc main() is 0(d)\n'.replace(' and (c >= b) or (c > 1)', ' and ((c >= b) or (c > 1))')]):
         try:
@@ -357,6 +383,11 @@ def whole_program_tie(ck, pool, n):
                 ck.violation('the model of ConstProp/OptimiseExpr changes the meaning of a program (extracted XSem on XConstProp.front p vs p) although the tree dumps tie it to '
                              'the working tree: %s [%s]' % (r['front'], r['name']),
                              {'kind': 'front-changes-meaning', 'x_source': r['x'], 'name': r['name'], 'what': r['front']}, tags={'kind': 'front-changes-meaning'})
+    diags = {}
+    for r in res:
+        if r.get('diag'):
+            diags[r['diag']] = diags.get(r['diag'], 0) + 1
+    ck.cov['diagnostics_compared_with_model_error'] = diags
     ck.cov['whole_programs_tied'] = judged
     ck.cov['whole_programs_model_status'] = model_stat
     ck.cov['whole_programs_tree_dump_mismatches'] = nt
